@@ -117,5 +117,14 @@ CLAIMED['C17'] = {
     'note': 'The bound is the tables as they stand; brand tokens are a candidate list filtered by the table itself; known findings: SSH-1 table entries 3des/blowfish/idea carry no failure.',
 }
 
+CLAIMED['C18'] = {
+    'engines': 'ZX',
+    'technique': 'symbolic execution of parse_host_and_port, process_commandline (argparse stubbed, option values symbolic), SSH_Socket._resolve/connect under an arbitrary resolver answer, and the target labels',
+    'text': 'For every spelling within the bounds (symbolic host characters, IPv6-like groups, port digits) z3 shows the parsed pair equals the spelling\'s meaning; command line and '
+            'targets file yield exactly those pairs, ports outside 1..65535 are rejected before any socket exists; for every resolver answer of <=3 entries and every preference '
+            'only requested families are dialled, in order, with exactly (host, port); text and JSON labels denote the same pair.',
+    'note': 'argparse replaced by a stub returning the declared options; OS resolver replaced by FakeNet; label obligation uses 4 concrete host classes; known finding: -64 order.',
+}
+
 NOT_APPLICABLE = {
 }
